@@ -1,6 +1,184 @@
-import PySMT.Core.Eval
-import PySMT.Core.TypeOf
-/-! C01 property theorems (stub, replaced when the model is assembled). -/
+import PySMT.Proofs.SimpMain
+import PySMT.Proofs.SimpPerm
+import PySMT.Proofs.SimpOrder
+/-!
+# C01 — Simplification preserves type and meaning
+
+Property (fixed text): *For every well-typed formula, the simplified formula has the same
+type and, under every interpretation of the free symbols (and every non-empty
+quantification domain), the same value as the original. It never mentions a symbol that is
+not free in the original.* Interpretations under which an Int/Real division by zero is
+evaluated are left unconstrained (`div0 I t`).
+
+Model: `PySMT.Simplifier.simp` (Impl/Simplifier.lean), one Lean rule per `walk_*` method
+(Impl/Simp/*.lean), tied to `/repo` on every run by the correspondence check of
+`harness/props/c01.py`. Reference semantics: `PySMT.eval` (Core/Eval.lean).
+
+Hypotheses of the theorems:
+* `t.wf` — `t` is accepted by the type checker **and** every node has the arity / payload
+  shape its `FormulaManager` constructor gives it (`Impl/WF.lean`). The type checker alone
+  does not check arities (`Plus()` "has type" Real), and the reference semantics is type-sound
+  only with them; every formula built by pySMT's constructors is `wf`.
+* `inFrag t` — every operator of `t` has an entry in `Simplifier.ruleOf` and meets the entry's
+  guard. **This is why the four main theorems are `_partial`**: at present the table holds
+  the Boolean/core family (and, or, not, iff, implies, ite, equals on non-array sorts, le, lt,
+  forall, exists, function, toreal, symbols, constants) and the arithmetic family (plus,
+  times, minus, div). Missing: the bit-vector, string and array operators and `Equals` between
+  array-sorted terms (bit-vector / string-array families in preparation: adding them changes
+  `ruleOf` and `ruleOf_ok` only), and `pow` / algebraic constants, which have no semantics
+  (known finding F05). The statements themselves need no change when the table grows.
+-/
 namespace PySMT.C01
-theorem stub_partial : True := trivial
+open PySMT PySMT.Simp PySMT.Simplifier
+
+/-- type preservation (partial: fragment `inFrag`, see the header) -/
+theorem simp_type_partial (t : Term) (τ : Ty) (hwf : t.wf = true) (hfr : inFrag t = true)
+    (hty : t.typeOf = some τ) : (simp t).typeOf = some τ :=
+  (simp_spec t hwf hfr τ hty).1.1
+
+/-- the simplified formula is well-formed again (partial: fragment `inFrag`) -/
+theorem simp_wf_partial (t : Term) (τ : Ty) (hwf : t.wf = true) (hfr : inFrag t = true)
+    (hty : t.typeOf = some τ) : (simp t).wf = true :=
+  (simp_spec t hwf hfr τ hty).1.2
+
+/-- same value under every well-formed interpretation (every sort-respecting valuation of the
+free symbols and functions, every non-empty quantification domain, every choice of the
+division-by-zero functions) that evaluates no division by zero in `t`
+(partial: fragment `inFrag`) -/
+theorem simp_sound_partial (t : Term) (τ : Ty) (hwf : t.wf = true) (hfr : inFrag t = true)
+    (hty : t.typeOf = some τ) (I : Interp) (hI : I.WF) (hd : div0 I t = false) :
+    eval I (simp t) = eval I t :=
+  ((simp_spec t hwf hfr τ hty).2.1 I hI hd).1
+
+/-- simplification never introduces an evaluated division by zero (partial: fragment `inFrag`) -/
+theorem simp_div0_partial (t : Term) (τ : Ty) (hwf : t.wf = true) (hfr : inFrag t = true)
+    (hty : t.typeOf = some τ) (I : Interp) (hI : I.WF) (hd : div0 I t = false) :
+    div0 I (simp t) = false :=
+  ((simp_spec t hwf hfr τ hty).2.1 I hI hd).2
+
+/-- the simplified formula mentions only symbols free in the original (partial: fragment `inFrag`) -/
+theorem simp_fv_subset_partial (t : Term) (τ : Ty) (hwf : t.wf = true) (hfr : inFrag t = true)
+    (hty : t.typeOf = some τ) : ∀ s ∈ (simp t).fv, s ∈ t.fv :=
+  (simp_spec t hwf hfr τ hty).2.2
+
+/-- every entry of the rule table is locally correct **for arbitrary well-formed simplified
+arguments**. The implementation's argument order of products depends on node ids; since this
+holds for every argument list, the implementation's own sequence of rule applications (checked
+call by call by K1) is covered, not only the order `simp` fixes. -/
+theorem rule_ok (op : Op) (e : Entry) (h : ruleOf op = some e) : RuleOK op e := ruleOf_ok op e h
+
+/-- the assembled statement for any rule table whose entries are locally correct: adding a rule
+family cannot break the assembly -/
+theorem simpWith_correct (tbl : Op → Option Entry) (hok : ∀ op e, tbl op = some e → RuleOK op e)
+    (t : Term) (τ : Ty) (hwf : t.wf = true) (hfr : inFragWith tbl t = true) (hty : t.typeOf = some τ) :
+    ((simpWith tbl t).typeOf = some τ ∧ (simpWith tbl t).wf = true) ∧
+    (∀ I : Interp, I.WF → div0 I t = false →
+      eval I (simpWith tbl t) = eval I t ∧ div0 I (simpWith tbl t) = false) ∧
+    (∀ s ∈ (simpWith tbl t).fv, s ∈ t.fv) :=
+  simpWith_spec tbl hok t hwf hfr τ hty
+
+/-- **whatever order the implementation gives** the arguments of the `and`/`or`/`times` nodes
+its rules return (set iteration order, node-id order): for every re-ordering `ρ` applied after
+every rule application, type, well-formedness, value (under the proviso) and free symbols are
+preserved. `ρ = id` is `simp`. (partial: fragment `inFrag`) -/
+theorem simp_any_order_partial (ρ : Term → Term) (hρ : ∀ r, PermTop r (ρ r))
+    (t : Term) (τ : Ty) (hwf : t.wf = true) (hfr : inFrag t = true) (hty : t.typeOf = some τ) :
+    ((simpWithR ruleOf ρ t).typeOf = some τ ∧ (simpWithR ruleOf ρ t).wf = true) ∧
+    (∀ I : Interp, I.WF → div0 I t = false →
+      eval I (simpWithR ruleOf ρ t) = eval I t ∧ div0 I (simpWithR ruleOf ρ t) = false) ∧
+    (∀ s ∈ (simpWithR ruleOf ρ t).fv, s ∈ t.fv) :=
+  simpWithR_spec ruleOf ruleOf_ok ρ hρ t hwf hfr τ hty
+
+/-- type soundness of the reference semantics on well-formed terms (all 66 operators) -/
+theorem eval_sort (t : Term) (τ : Ty) (hwf : t.wf = true) (hty : t.typeOf = some τ) (I : Interp) (hI : I.WF) :
+    (eval I t).hasSort τ = true := eval_hasSort t hwf τ hty I hI
+
+/-- the correspondence check compares modulo the order of `and` arguments -/
+theorem perm_and (I : Interp) (l₁ l₂ : List Term) (p : Payload) (h : l₁.Perm l₂) :
+    eval I (.node .and l₁ p) = eval I (.node .and l₂ p) := eval_perm_and I l₁ l₂ p h
+
+/-- … of `or` arguments -/
+theorem perm_or (I : Interp) (l₁ l₂ : List Term) (p : Payload) (h : l₁.Perm l₂) :
+    eval I (.node .or l₁ p) = eval I (.node .or l₂ p) := eval_perm_or I l₁ l₂ p h
+
+/-- … and of `times` arguments -/
+theorem perm_times (I : Interp) (hI : I.WF) (l₁ l₂ : List Term) (p : Payload) (h : l₁.Perm l₂)
+    (hwf : (Term.node .times l₁ p).wf = true) :
+    eval I (.node .times l₁ p) = eval I (.node .times l₂ p) ∧ (Term.node .times l₂ p).wf = true :=
+  ⟨eval_perm_times I hI h hwf, wf_perm_times h hwf⟩
+
+/-- the operators that have a rule so far (what `inFrag` admits, up to the guard of `equals`) -/
+theorem fragment_ops (op : Op) : (ruleOf op).isSome = true ↔
+    op ∈ [.and, .or, .not, .iff, .implies, .ite, .equals, .le, .lt, .forall_, .exists_, .function, .toReal,
+          .symbol, .boolConst, .intConst, .realConst, .strConst, .bvConst, .plus, .times, .minus, .div] := by
+  cases op <;> simp [ruleOf]
+
+/-! ## non-vacuity: concrete non-trivial terms meeting the hypotheses -/
+section Examples
+
+private def p : Term := Term.var "p" .bool
+private def x : Term := Term.var "x" .int
+private def y : Term := Term.var "y" .int
+
+/-- `p ∧ ¬p` : a Boolean term on which `walk_and` finds complementary literals -/
+private def t1 : Term := .node .and [p, .node .not [p] .none] .none
+
+example : t1.wf = true ∧ inFrag t1 = true ∧ t1.typeOf = some .bool := by
+  obtain ⟨w, ty, fr⟩ : p.wf = true ∧ p.typeOf = some .bool ∧ inFrag p = true := var_ok "p" .bool
+  have tyn : (Term.node .not [p] .none).typeOf = some .bool := typeOf_not_iff.mpr ⟨rfl, by simpa using ty⟩
+  have wn : (Term.node .not [p] .none).wf = true := wf_mk' (by simpa using w) rfl tyn
+  have ty1 : t1.typeOf = some .bool :=
+    typeOf_and_iff.mpr ⟨rfl, by intro a ha; simp at ha; rcases ha with rfl | rfl <;> assumption⟩
+  refine ⟨wf_mk' (by intro a ha; simp at ha; rcases ha with rfl | rfl <;> assumption) rfl ty1, ?_, ty1⟩
+  refine frag_node (e := BoolRules.walkAnd) rfl rfl ?_
+  intro a ha; simp at ha
+  rcases ha with rfl | rfl
+  · exact fr
+  · exact frag_node (e := BoolRules.walkNot) rfl rfl (by intro a ha; simp at ha; subst ha; exact fr)
+
+/-- `∀ z x. 0 ≤ x - y` : a quantifier with an unused variable over an arithmetic atom that
+`walk_le` rewrites -/
+private def t2 : Term :=
+  .node .forall_ [.node .le [Term.int 0, .node .minus [x, y] .none] .none]
+    (.qvars [Sym.var "z" .int, Sym.var "x" .int])
+
+example : t2.wf = true ∧ inFrag t2 = true ∧ t2.typeOf = some .bool := by
+  obtain ⟨wx, tx, fx⟩ : x.wf = true ∧ x.typeOf = some .int ∧ inFrag x = true := var_ok "x" .int
+  obtain ⟨wy, ty, fy⟩ : y.wf = true ∧ y.typeOf = some .int ∧ inFrag y = true := var_ok "y" .int
+  have tm : (Term.node .minus [x, y] .none).typeOf = some .int := by
+    rw [typeOf_node]; simp only [List.map_cons, List.map_nil]; rw [show x.typeOf = _ from tx, show y.typeOf = _ from ty]; rfl
+  have wm : (Term.node .minus [x, y] .none).wf = true :=
+    wf_mk' (by intro a ha; simp at ha; rcases ha with rfl | rfl <;> assumption) rfl tm
+  have tl : (Term.node .le [Term.int 0, .node .minus [x, y] .none] .none).typeOf = some .bool :=
+    BoolRules.typeOf_rel_mk (Or.inl rfl) _ (Or.inl ⟨typeOf_int 0, tm⟩)
+  have wl : (Term.node .le [Term.int 0, .node .minus [x, y] .none] .none).wf = true :=
+    wf_mk' (by intro a ha; simp at ha; rcases ha with rfl | rfl; exact wf_int 0; exact wm) rfl tl
+  have t2ty : t2.typeOf = some .bool := by
+    rw [t2, typeOf_node]; simp only [List.map_cons, List.map_nil, tl]; rfl
+  refine ⟨wf_mk' (by intro a ha; simp at ha; subst ha; exact wl) rfl t2ty, ?_, t2ty⟩
+  refine frag_node (e := BoolRules.walkForall) rfl rfl ?_
+  intro a ha; simp at ha; subst ha
+  refine frag_node (e := BoolRules.walkLe) rfl rfl ?_
+  intro a ha; simp at ha
+  rcases ha with rfl | rfl
+  · exact frag_node (e := keep .intConst) rfl rfl (by simp)
+  · refine frag_node (e := ArithRules.walkMinus) rfl rfl ?_
+    intro a ha; simp at ha
+    rcases ha with rfl | rfl <;> assumption
+
+/-- a well-formed interpretation exists (so the quantifier over interpretations is not empty) -/
+example : ∃ I : Interp, I.WF :=
+  ⟨{ sym := fun s => s.ret.defaultVal, fn := fun f _ => f.ret.defaultVal, dom := fun t => [t.defaultVal],
+     div0r := fun _ => 0, div0i := fun _ => 0 },
+   by
+    have hdef : ∀ t : Ty, t.defaultVal.hasSort t = true := by
+      intro t
+      induction t with
+      | bool | int | real | str => rfl
+      | bv w => simp [Ty.defaultVal, Val.hasSort]
+      | array i e _ ihe => simp [Ty.defaultVal, Val.hasSort, ihe]
+      | custom n => simp [Ty.defaultVal, Val.hasSort]
+    exact ⟨fun s => hdef _, fun f _ => hdef _, fun t => by simp, fun t v hv => by simp at hv; subst hv; exact hdef t⟩⟩
+
+end Examples
 end PySMT.C01
